@@ -173,7 +173,7 @@ Definition s_suspend (now : N) (s : sstate) : sstate :=
 
 Definition s_resume (now : N) (s : sstate) : sstate :=
   let s := match s_phase s with
-           | SendEof | SCancelled => supd_inact (c_restart now) (supd_ack (c_restart now) s)
+           | SendEof | SCancelled => supd_inact (c_reset now) (supd_ack (c_reset now) s)
            | _ => s
            end in
   let s := set_s_state TActive s in
